@@ -29,7 +29,7 @@ struct RunCfg {
     modes: Vec<u8>,
 }
 
-const LONG_KEY: &str = "a-twenty-byte-key-on-heap";
+const LONG_KEY: &str = "a-key-on-the-heap-that-is-longer-than-thirty-two-bytes";
 
 fn run_state_search(rc: &RunCfg, mode: u8, threads: usize) -> (usize, usize, usize, Option<(Init, Vec<Act>, String)>, u8) {
     HASH_MODE.store(mode, Relaxed);
@@ -54,9 +54,11 @@ fn run_state_search(rc: &RunCfg, mode: u8, threads: usize) -> (usize, usize, usi
         let init_idx = rc
             .inits
             .iter()
-            .position(|i| {
-                let (_, m) = i.build();
-                m == states[0].model
+            .position(|i| match states[0].err.as_ref() {
+                // a start state that failed carries its description in the message
+                Some(e) if e.contains(&format!("{i:?}")) => true,
+                Some(_) => false,
+                None => explore::guard(|| i.build()).map(|(_, m)| m == states[0].model).unwrap_or(false),
             })
             .unwrap_or(0);
         let err = states.last().and_then(|s| s.err.clone()).unwrap_or_default();
@@ -85,6 +87,8 @@ fn parse_init(s: &str) -> Option<Init> {
     match name {
         "FromVec" => Some(Init::FromVec(nums[0])),
         "PushRemove" => Some(Init::PushRemove(nums[0], nums[1])),
+        "Dups" => Some(Init::Dups(nums[0])),
+        "GrowShrink" => Some(Init::GrowShrink(nums[0], nums[1], nums[2] as u8)),
         _ => None,
     }
 }
@@ -96,7 +100,7 @@ fn replay_history(case: &J) -> Result<(), String> {
     let init = parse_init(case["init"].as_str().unwrap_or("Empty")).ok_or("bad init")?;
     let mut keys: Vec<String> = case["keys"].as_array().map(|a| a.iter().filter_map(|k| k.as_str().map(String::from)).collect()).unwrap_or_default();
     keys.push("zz-absent".into());
-    let (mut real, mut model) = init.build();
+    let (mut real, mut model) = explore::guard(|| init.build()).map_err(|p| format!("panic while building the start state {init:?}: {p}"))?;
     for (k, _) in &model.entries.clone() {
         if !keys.contains(k) {
             keys.push(k.clone());
@@ -146,7 +150,7 @@ fn state_runs(tier: Tier) -> Vec<RunCfg> {
         },
         RunCfg {
             name: "pumped start states (rehash cycles, tombstones), depth<=2",
-            keys: vec!["a", "p00", "p07", "pumped-key-on-the-heap-09"],
+            keys: vec!["a", "p00", "p07", "pumped-key-on-the-heap-09-and-longer-than-thirty-two-bytes"],
             vals: vec![0, 1],
             max_len: 40,
             max_depth: Some(2),
@@ -155,6 +159,33 @@ fn state_runs(tier: Tier) -> Vec<RunCfg> {
             modes: vec![0, 1, 2],
         },
     ];
+    // pumped start states through the growth thresholds of the key index (and of one bucket)
+    let sizes: Vec<usize> = if tier == Tier::Quick { vec![7, 8, 15, 16, 29, 57, 113, 257] } else { vec![3, 4, 7, 8, 14, 15, 28, 29, 56, 57, 112, 113, 224, 225, 448, 449, 1025, 4097] };
+    let mut inits = Vec::new();
+    for &n in &sizes {
+        inits.push(Init::FromVec(n));
+        inits.push(Init::PushRemove(n + n / 2, n / 2));
+        if n <= 1025 {
+            inits.push(Init::Dups(n));
+        }
+        // grown through the thresholds, then shrunk back to a handful of entries
+        if n <= 449 {
+            for how in 0..4u8 {
+                inits.push(Init::GrowShrink(n, 3, how));
+                inits.push(Init::GrowShrink(n, n / 8 + 1, how));
+            }
+        }
+    }
+    v.push(RunCfg {
+        name: "pumped start states at the index growth thresholds, depth<=1",
+        keys: vec!["d", "p00", "p03", "zz-new"],
+        vals: vec![0, 1],
+        max_len: 100_000,
+        max_depth: Some(1),
+        inits,
+        fine: true,
+        modes: vec![0, 1],
+    });
     v.push(RunCfg {
         name: "3 keys x 2 values, len<=6, fixpoint",
         keys: vec!["a", "b", "c"],
@@ -188,7 +219,7 @@ fn state_runs(tier: Tier) -> Vec<RunCfg> {
         });
         v.push(RunCfg {
             name: "pumped start states (rehash cycles, tombstones), depth<=3",
-            keys: vec!["a", "p00", "p23", "p47", "pumped-key-on-the-heap-09"],
+            keys: vec!["a", "p00", "p23", "p47", "pumped-key-on-the-heap-09-and-longer-than-thirty-two-bytes"],
             vals: vec![0, 1],
             max_len: 40,
             max_depth: Some(3),
@@ -274,7 +305,17 @@ fn std_hash<T: std::hash::Hash>(t: &T) -> u64 {
 /// C14 laws over all pairs and triples of a closed universe of small values.
 fn c14_laws(rep: &mut Report, tier: Tier) {
     let leaves = [RV::Null, RV::Bool(true), RV::num("0"), RV::num("1"), RV::num("1.0"), RV::str(""), RV::str("a")];
-    let keys = ["a", "b"];
+    c14_law_universe(rep, tier, &leaves, &["a", "b"], "law_universe");
+    // keys, strings and numbers on both sides of the inline/heap threshold (16 bytes), whose
+    // length order and byte order disagree
+    let long_leaves = [RV::Null, RV::str("az"), RV::str(&"b".repeat(17)), RV::str(&"a".repeat(18)), RV::num("2"), RV::num("10000000000000000000"), RV::num("3.0000000000000000000")];
+    let k1 = "b".repeat(17);
+    let k2 = "a".repeat(18);
+    let k3 = format!("{}b", "a".repeat(16));
+    c14_law_universe(rep, tier, &long_leaves, &["az", &k1, &k2, &k3], "law_universe_long");
+}
+
+fn c14_law_universe(rep: &mut Report, tier: Tier, leaves: &[RV], keys: &[&str], uname: &str) {
     // (three nodes are needed for an object with two entries - the smallest place where the
     // order of objects can disagree between key and value comparisons)
     let _ = tier;
@@ -355,7 +396,7 @@ fn c14_laws(rep: &mut Report, tier: Tier) {
     });
     rep.absorb(t);
     rep.tally.sample(json!({"law_universe_size": vals.len(), "first": univ.first().map(|v| v.show()), "last": univ.last().map(|v| v.show())}));
-    rep.bounds["law_universe"] = json!({"values": vals.len(), "max_nodes": n, "leaves": leaves.iter().map(|l| l.show()).collect::<Vec<_>>(), "keys": keys});
+    rep.bounds[uname] = json!({"values": vals.len(), "max_nodes": n, "leaves": leaves.iter().map(|l| l.show()).collect::<Vec<_>>(), "keys": keys});
 }
 
 /// C14, construction routes: the same content built through every public route (so that
